@@ -97,6 +97,21 @@ func trimWhitespace(s string) string {
 	return strings.Trim(s, parser.WhitespaceChars)
 }
 
+// radixPrefix returns the base of a 0x/0o/0b prefix (0 if there is none).
+func radixPrefix(ss string) int {
+	if len(ss) > 2 && ss[0] == '0' {
+		switch ss[1] {
+		case 'x', 'X':
+			return 16
+		case 'o', 'O':
+			return 8
+		case 'b', 'B':
+			return 2
+		}
+	}
+	return 0
+}
+
 // ss must be trimmed
 func stringToInt(ss string) (int64, error) {
 	if ss == "" {
@@ -105,15 +120,12 @@ func stringToInt(ss string) (int64, error) {
 	if ss == "-0" {
 		return 0, strconv.ErrSyntax
 	}
-	if len(ss) > 2 {
-		switch ss[:2] {
-		case "0x", "0X":
-			return strconv.ParseInt(ss[2:], 16, 64)
-		case "0b", "0B":
-			return strconv.ParseInt(ss[2:], 2, 64)
-		case "0o", "0O":
-			return strconv.ParseInt(ss[2:], 8, 64)
+	if base := radixPrefix(ss); base != 0 {
+		if ss[2] == '+' || ss[2] == '-' {
+			// strconv.ParseInt would accept a sign here, NonDecimalIntegerLiteral does not
+			return 0, strconv.ErrSyntax
 		}
+		return strconv.ParseInt(ss[2:], base, 64)
 	}
 	return strconv.ParseInt(ss, 10, 64)
 }
@@ -141,6 +153,22 @@ func (s asciiString) _toFloat(trimmed string) (float64, error) {
 	// Go allows underscores in numbers, when parsed as floats, but ECMAScript expect them to be interpreted as NaN.
 	if strings.ContainsRune(trimmed, '_') {
 		return 0, strconv.ErrSyntax
+	}
+
+	// A binary, octal or hexadecimal integer literal too large for int64 (smaller ones are handled by _toInt).
+	if base := radixPrefix(trimmed); base != 0 {
+		digits := trimmed[2:]
+		for i := 0; i < len(digits); i++ {
+			if digitVal(digits[i]) >= base {
+				return 0, strconv.ErrSyntax
+			}
+		}
+		n, ok := new(big.Int).SetString(digits, base)
+		if !ok {
+			return 0, strconv.ErrSyntax
+		}
+		f, _ := new(big.Float).SetInt(n).Float64()
+		return f, nil
 	}
 
 	// Hexadecimal floats are not supported by ECMAScript.
